@@ -259,6 +259,14 @@ def _has_helper():
 
 HAS_FIX = _has_helper()
 
+if not HAS_FIX:
+    # PIN of the finding (this tree rewrites in place with `fs::write`): it is PROVED that every rewrite that ends without a message has
+    # passed through a state in which the target file is EMPTY: the failure of C39.write.original-or-formatted-at-every-point is not
+    # an artefact of an over-approximating model, the truncated state is a real crash point for every file that needs reformatting
+    WRITE_ONE['ensures'] += """,
+            write_mode(args) && result.3 && final(ui).lines@ == old(ui).lines@ ==> exists|i: int| %(NEW)s
+                && (#[trigger] final(disk).hist@[i])(path.id()) == Some(Seq::<u8>::empty()) /*@C39.finding-pin.truncated-state-is-passed-through*/""" % {'NEW': NEW}
+
 ITEMS = {
     'CliArgs': {'src': {'file': ARGS, 'kind': 'struct', 'name': 'CliArgs'},
                 'rules': [('struct-fields', {'keep': ['write', 'check', 'list_different', 'output']})]},
@@ -281,6 +289,13 @@ MUTANTS = [
     {'name': 'error-not-printed', 'item': 'main::write_one',
      'pattern': r'eprintln!\("Failed to write \{\}: \{e\}", path\.to_string_lossy\(\)\);', 'repl': '',
      'expect': r'C39\.write\.error-reported'},
+    {'name': 'error-status-reset', 'item': 'main::write_one',
+     'pattern': r'if changed \{\s*exit_code = 1;', 'repl': 'if changed { exit_code = 0;',
+     'expect': r'C39\.write\.error-status-sticky'},
+    # the frame: a path that is not known to be the target is removed on the error path
+    {'name': 'removes-another-file', 'item': 'main::write_one',
+     'pattern': r'(path\.to_string_lossy\(\)\);\s*)exit_code = 2;', 'repl': r'\1exit_code = 2; let _ = fs::remove_file(&result_path);',
+     'expect': r'C39\.write\.frame'},
     {'name': 'check-mode-writes', 'item': 'main::write_one',
      'pattern': r'if changed \{\s*exit_code = 1;', 'repl': 'if changed { let _ = fs::remove_file(path); exit_code = 1;',
      'expect': r'C39\.check\.nothing-written'},
@@ -324,9 +339,59 @@ UNIT = {
     'extra_rules': EXTRA_RULES,
     'allow': [r'external_body', r'uninterp',
               r'assume_specification \[String::as_bytes\]', r'assume_specification<T> \[core::mem::drop\]'],
-    'min_obligations': 1,
-    'trusted': [],
-    'not_covered': [],
-    'samples': [],
+    'min_obligations': 3,
+    'trusted': [
+        'THE FILE-SYSTEM MODEL (template.rs, `FsLog` and the std::fs shims) is the specification of the platform; nothing in it is proved. '
+        '`hist` = every LOGICAL state (what any process would read, page cache included) the file system passes through; a process kill '
+        '(SIGKILL, SIGXFSZ) can stop the program in any of them; `failed` = number of operations that returned Err; `open` = handle -> path',
+        'std::fs::write(p, data) ("creates the file or entirely replaces its contents"; std source: File::create = open(O_WRONLY|O_CREAT|O_TRUNC), then '
+        'write_all) = Truncate(p); Append(p, chunk)*, stoppable by a crash or an error (ENOSPC, EFBIG, EIO) after any event or inside an append: the '
+        'content of p during/after the call is the old content, or ANY prefix of data (the empty one included), or data; no other path changes; Ok => all of '
+        'data is there and the truncated (empty) state was passed through',
+        'std::fs::rename(a, b) within one directory (= one file system) is ATOMIC (POSIX rename(2); Windows: MoveFileExW(MOVEFILE_REPLACE_EXISTING), which '
+        'replaces but is documented as atomic only on NTFS in practice): one step from "b = old file" to "b = a\'s file", a disappears; Err => nothing changed',
+        'File::create_new(p) (open(O_CREAT|O_EXCL)): Ok only if p did not exist, one step to an empty file, an existing file is never touched; '
+        'File::write_all through the handle appends to the file the handle is linked at, byte-wise stoppable, touches no other path; sync_all, metadata, '
+        'set_permissions, canonicalize change no content; remove_file is one step; every Err is counted in `failed`',
+        'ALIAS-FREE paths: different PathIds (directory, name) are different files (no hard links / symlinks between the files of the run); under this '
+        'assumption `fs::canonicalize(p)` names the same file as p (same id). A path = (dir, name): Path::file_name / with_file_name / OsString::push '
+        'by their std docs (with_file_name keeps the parent directory when the path has a file name)',
+        'NO CONCURRENT WRITER: only luafmt changes the files (hist has no foreign steps). In particular the precondition of the per-file step: the '
+        'target still holds what `fs::read_to_string(path)` returned earlier in the same loop iteration (the read is inside closures of `main` and is not '
+        'extracted); check_text does not touch the file system',
+        'rule c39-fs-ghost: the file-system state is threaded as the explicit parameter `disk` (state-passing form, as unit c36_channel\'s `ch`); '
+        'rule c39-ghost-param adds it to the signatures of the repository fns that call std::fs',
+        'rule c39-stderr-ghost: eprint!/eprintln! = one tick of the ghost counter `ui.lines`; the dropped format arguments (to_string_lossy, Display of the '
+        'error, format_unified_diff = string building in luafmt.rs) are pure; rule c39-tmp-suffix: format!(".luafmt-tmp-{}", pid) is a non-empty String',
+        'rule c39-letchain-bool-first: `if A && let P = E {B}` == `if A { if let P = E {B} }` (Rust reference, let chains)',
+        '`PathBuf` and `Path` are identified (type alias): owned / borrowed form of the same value; `std::process::exit` never returns (`-> !`); '
+        'String::as_bytes = the UTF-8 encoding of the string (vstd encode_utf8); core::mem::drop has no observable effect in the model (the handle stays in '
+        '`open`, nothing is written through it afterwards); io::stdout is not a file of the model',
+    ],
+    'not_covered': [
+        'the loop `for path in &files` of `main` and the final `exit(exit_code)`: the composition of the per-file steps over several files is proved on the '
+        'CONTRACT (lemma_run_keeps_every_target in template.rs: steps with this contract over distinct existing targets keep every target original-or-formatted), '
+        'not on the loop text, whose body computes `format_result` through closures (map_err / and_then / map) that are outside the extractable dialect',
+        'DURABILITY after power loss / kernel crash: the model is the logical state. The proposed repair calls sync_all() before the rename (data reaches the disk '
+        'before the name does); it does not fsync the directory, so after a power loss the rename itself may be lost (the ORIGINAL is then still intact)',
+        'hard links, symlinked targets (the repair resolves the link with fs::canonicalize and replaces the file it points to; rename gives the file a new inode: '
+        'other hard links keep the old content, ownership becomes the caller\'s, permissions are copied), directories that are not writable (the repair then '
+        'reports an error where fs::write would have rewritten the file in place)',
+        'a temp file `<name>.luafmt-tmp-<pid>` is left behind when the process is KILLED between create_new and rename (seen in the replay); on every error RETURN it is removed',
+        'the stdin / `--output` paths (luafmt.rs:253, :340) write a file the user names as a NEW output; truncating a pre-existing output is what was asked for. '
+        'Only `luafmt x.lua -o x.lua` rewrites a source in place through that path: it would need the same helper (not in the minimal diff)',
+        'collect_lua_files (workspace.rs): which files are targets; the BTreeSet there makes the targets pairwise distinct paths, which the composition lemma assumes',
+    ],
+    'samples': [
+        'per-file step of main (slice): requires disk(path) == source; ensures  --write mode ==> forall states i from entry to return: disk_i(path) == source || disk_i(path) == formatted   '
+        '[C39.write.original-or-formatted-at-every-point: FAILS on fs::write(path, formatted): the states with a proper prefix of `formatted`, the empty one first]',
+        'per-file step: --write mode ==> every other path keeps its content in every state, except a temp sibling `<name>...` of the target that did not exist [C39.write.frame]',
+        'per-file step: an operation failed ==> exit_code != 0 and a message was printed; exit_code stays non-zero; nothing printed and text changed ==> disk(path) == formatted',
+        'per-file step: --check / --list-different ==> the file-system log is unchanged (nothing is written at all)',
+        'write_atomically (repair): forall states: disk_i(path) == old content || disk_i(path) == data; Ok ==> disk(path) == data; a failed operation ==> Err; frame as above',
+        'write_then_rename (repair): requires tmp != target, `file` is the handle of the empty tmp; only target and tmp change; target is old-or-new in every state',
+        'temp_sibling (repair): Ok(t) ==> t is in the directory of `path` and its name is the name of `path` plus a non-empty suffix',
+        'finding pin (unrepaired tree only): a silent rewrite has passed through a state where the target is EMPTY [C39.finding-pin.truncated-state-is-passed-through: proved]',
+    ],
     'mutants': MUTANTS,
 }
